@@ -1599,13 +1599,20 @@ def ghost_census(ctx, crate, files=None):
         # reviewed tree are looked through one level
         known_fns = {kk.rsplit("::", 1)[1] for kk in ref} | all_ref
         new = set()
+        # ... and what a reviewed helper that the assertion code called did inside (anchors_calls.json) is reviewed, too: the helper may
+        # come back under a new name, as a free function, with `is_superset` for `is_subset`
+        ctab = mir._anchor_calls()
+        want_inner = set(want)
+        for kk, vv in ctab.items():
+            if kk.rsplit("::", 1)[1] in want:
+                want_inner |= {{"is_superset": "is_subset"}.get(x, x) for x in vv}
         for nm in set(g) - want:
             ts = [t for t in by_name.get(nm, [])]
             if ts and nm not in _anchor_names(crate):
                 inner = set()
                 for t in ts:
-                    inner |= {c.callee.name for c in t.all_calls() if c.callee and c.callee.name and c.callee.name not in _GHOST_IGNORE}
-                new |= {x for x in inner if x not in want}
+                    inner |= {{"is_superset": "is_subset"}.get(c.callee.name, c.callee.name) for c in t.all_calls() if c.callee and c.callee.name and c.callee.name not in _GHOST_IGNORE}
+                new |= {x for x in inner if x not in want_inner}
             else:
                 new.add(nm)
         ctx.check(not new, "ghost-census:" + fkey(b), "the `if CHECKS` code of %s calls nothing it did not call in the reviewed tree" % short(b.id),
